@@ -63,6 +63,16 @@ func costFamily(name string, k int) string {
 		return rep("SELECT a FROM t WHERE b = 1;\n", k) + "SELECT FROM"
 	case "keyword_soup": // statement keywords only: every token starts a statement that fails
 		return rep("SELECT INSERT UPDATE DELETE ", k)
+	case "nested_minus": // right-nested operands that need parentheses: a - (a - (a - ...))
+		return "SELECT " + rep("a - (", k) + "a" + rep(")", k) + " FROM t"
+	case "nested_not_paren":
+		return "SELECT a FROM t WHERE " + rep("NOT (b = 1 AND ", k) + "c = 2" + rep(")", k)
+	case "nested_case":
+		return "SELECT " + rep("CASE WHEN a = 1 THEN ", k) + "0" + rep(" ELSE 1 END", k) + " FROM t"
+	case "nested_func":
+		return "SELECT " + rep("COALESCE(a, ", k) + "0" + rep(")", k) + " FROM t"
+	case "nested_subquery":
+		return "SELECT a FROM t WHERE a IN (" + rep("SELECT b FROM u WHERE b IN (", k) + "SELECT 1" + rep(")", k) + ")"
 	case "union_chain":
 		return "SELECT a FROM t" + rep("\nUNION ALL SELECT a FROM t", k)
 	case "case_whens":
